@@ -31,6 +31,8 @@ class StubBroker(object):
 class StubPrices(object):
     def __init__(self, prices):
         self.p = dict((a, (np.nan if p is None else p)) for a, p in prices)
+        self.p.setdefault('EQ:WARM1', 10.0)
+        self.p.setdefault('EQ:WARM2', 3.5)
 
     def get_asset_latest_ask_price(self, dt, asset):
         return self.p.get(asset, np.nan)
@@ -54,6 +56,12 @@ def handler(c):
     try:
         if op == 'sizer':
             sizer = mk_sizer(c, StubBroker(c['equity'], c['fee']))
+            for wv in c.get('warmup_calls', []):
+                # earlier sizings on the same sizer object (other asset sets): they must not influence this one
+                try:
+                    sizer(ts(0), dict((a, w) for a, w in wv))
+                except Exception:
+                    pass
             r = sizer(ts(0), dict((a, w) for a, w in c['weights']))
             return ['ok', [[a, num(v['quantity'])] for a, v in r.items()], [type(v['quantity']).__name__ for v in r.values()]]
         if op == 'universe':
@@ -107,18 +115,36 @@ def rebalance_seq(c):
         broker.submit_order('p', Order(start, a, q))
     broker.update(ts(c['t_seed']))
     out = []
+
+    def mk_seq_sizer():
+        if c['kind'] == 'long_only':
+            return DollarWeightedCashBufferedOrderSizer(broker, 'p', dh, cash_buffer_percentage=c['param'])
+        return LongShortLeveragedOrderSizer(broker, 'p', dh, gross_leverage=c['param'])
+    persistent = None
+    if c.get('persistent') and c['rounds']:
+        # one universe object, one sizer and one construction model serve every rebalance, as in a trading system
+        uni0 = StaticUniverse(list(c['rounds'][0]['universe']))
+        sizer0 = mk_seq_sizer()
+        if c.get('single_signal') is not None:
+            alpha0 = SingleSignalAlphaModel(uni0, signal=c['single_signal'])
+        else:
+            alpha0 = FixedSignalsAlphaModel({})
+        persistent = (uni0, sizer0, PortfolioConstructionModel(broker, 'p', uni0, sizer0, FixedWeightPortfolioOptimiser(),
+                                                                alpha_model=alpha0))
     for r in c['rounds']:
         t = ts(r['t_close'])
         broker.update(t)
         held = [[a, num(v['quantity'])] for a, v in broker.get_portfolio_as_dict('p').items()]
         equity = num(broker.get_portfolio_total_equity('p'))
-        if c['kind'] == 'long_only':
-            sizer = DollarWeightedCashBufferedOrderSizer(broker, 'p', dh, cash_buffer_percentage=c['param'])
+        if persistent is not None:
+            _, sizer, pcm = persistent
+            if c.get('single_signal') is None:
+                pcm.alpha_model = FixedSignalsAlphaModel(dict((a, w) for a, w in r['alpha']))
         else:
-            sizer = LongShortLeveragedOrderSizer(broker, 'p', dh, gross_leverage=c['param'])
-        pcm = PortfolioConstructionModel(broker, 'p', StaticUniverse(list(r['universe'])), sizer,
-                                         FixedWeightPortfolioOptimiser(),
-                                         alpha_model=FixedSignalsAlphaModel(dict((a, w) for a, w in r['alpha'])))
+            sizer = mk_seq_sizer()
+            pcm = PortfolioConstructionModel(broker, 'p', StaticUniverse(list(r['universe'])), sizer,
+                                             FixedWeightPortfolioOptimiser(),
+                                             alpha_model=FixedSignalsAlphaModel(dict((a, w) for a, w in r['alpha'])))
         stats = {'target_allocations': []}
         try:
             orders = pcm(t, stats=stats)
